@@ -45,6 +45,8 @@ package http2
 //@   trusted
 //@   assigns commonLowerHeader, commonCanonHeader, mapOf(commonLowerHeader), mapOf(commonCanonHeader)
 //@   ensures commonOK()
+//@   ensures forall s *serverConn :: s.canonHeader != nil ==> s.canonHeader != commonCanonHeader && s.canonHeader != commonLowerHeader
+//@   ensures live(commonCanonHeader) && live(commonLowerHeader)
 
 //@ func (*serverConn).canonicalHeader :: sc, v -> cv
 //@   props C05
@@ -52,7 +54,7 @@ package http2
 //@   requires [C05:cache-is-private-to-the-connection] sc.canonHeader != nil ==> sc.canonHeader != commonCanonHeader && sc.canonHeader != commonLowerHeader
 //@   assigns sc.canonHeader, sc.canonHeaderKeysSize, mapOf(sc.canonHeader), commonLowerHeader, commonCanonHeader, mapOf(commonLowerHeader), mapOf(commonCanonHeader)
 //@   ensures [C05:header-name-canonicalised-cache-or-not] cv == canon(v)
-//@   ensures [C05:cache-stays-canonical] sc.canonHeader != nil ==> cacheOK(sc)
+//@   ensures [C05:cache-stays-canonical] sc.canonHeader != nil ==> cacheOK(sc) && sc.canonHeader != commonCanonHeader && sc.canonHeader != commonLowerHeader
 
 //@ -- C12: SETTINGS_INITIAL_WINDOW_SIZE adjusts every open stream's send window by (new - previous peer value)
 //@ pure func streamsOK(sc *serverConn) bool = sc.streams != nil && (forall id uint32 :: mapHas(sc.streams, id) ==> mapGet(sc.streams, id) != nil) && (forall a uint32, b uint32 :: mapHas(sc.streams, a) && mapHas(sc.streams, b) && a != b ==> mapGet(sc.streams, a) != mapGet(sc.streams, b))
@@ -178,10 +180,43 @@ package http2
 //@ func (*serverConn).checkPriority :: sc, streamID, p -> err
 //@   trusted
 //@   assigns nothing
-//@ func (*serverConn).newWriterAndRequest :: sc, st, f -> rw, req, err
+//@ -- C09/C05: what the handler sees as Request.Host is the :authority the client addressed (a "host" line only
+//@ -- fills in when there is no :authority); regular fields land in Request.Header under canonical keys
+//@ pure func pseudoVal(f *MetaHeadersFrame, name string) string
+//@ func (*MetaHeadersFrame).PseudoValue :: mh, pseudo -> v
 //@   trusted
-//@   assigns unrestricted
+//@   pure
+//@   ensures v == pseudoVal(mh, pseudo)
+//@ pure func regFields(f *MetaHeadersFrame) seq[hpack.HeaderField]
+//@ func (*MetaHeadersFrame).RegularFields :: mh -> fs
+//@   trusted
+//@   pure
+//@   ensures fs == regFields(mh)
+//@ ghost var lastAuthority string
+//@ ghost var lastHeader http.Header
+//@ func (*serverConn).newWriterAndRequestNoBody :: sc, st, rp -> rw, req, err
+//@   trusted
+//@   assigns unrestricted, lastAuthority, lastHeader
+//@   ensures lastAuthority == rp.authority && lastHeader == rp.header
+//@   ensures forall k string :: (mapHas(rp.header, k) <==> old(mapHas(rp.header, k))) && mapGet(rp.header, k) == old(mapGet(rp.header, k))
 //@   ensures err == nil ==> req != nil && isptr(requestBody, req.Body) && unboxptr(requestBody, req.Body) != nil
+//@ func strconv.ParseUint :: s, base, bitSize -> v, err
+//@   trusted
+//@   pure
+//@   ensures err == nil && bitSize == 63 ==> v <= 9223372036854775807
+
+//@ func (*serverConn).newWriterAndRequest :: sc, st, f -> rw, req, err
+//@   props C09,C05,C13,C10
+//@   requires sc != nil && f != nil && f.HeadersFrame != nil && (sc.canonHeader != nil ==> cacheOK(sc))
+//@   requires [C05:cache-is-private-to-the-connection] sc.canonHeader != nil ==> sc.canonHeader != commonCanonHeader && sc.canonHeader != commonLowerHeader
+//@   assigns unrestricted, lastAuthority, lastHeader
+//@   ensures err == nil ==> req != nil && isptr(requestBody, req.Body) && unboxptr(requestBody, req.Body) != nil
+//@   ensures [C09:authority-pseudo-header-is-the-request-host] err == nil && pseudoVal(f, "authority") != "" ==> lastAuthority == pseudoVal(f, "authority")
+//@   ensures [C09:host-line-only-fills-in-for-a-missing-authority] err == nil && pseudoVal(f, "authority") == "" ==> lastAuthority == ite(mapHas(lastHeader, canon("Host")) && len(mapGet(lastHeader, canon("Host"))) > 0, mapGet(lastHeader, canon("Host"))[0], "")
+//@   ensures [C05:request-header-keys-canonical] err == nil ==> (forall k string :: mapHas(lastHeader, k) && k != canon(":protocol") ==> canon(k) == k)
+//@   ensures [C13:malformed-pseudo-headers-are-a-stream-error] pseudoVal(f, "method") != "CONNECT" && (pseudoVal(f, "method") == "" || pseudoVal(f, "path") == "" || (pseudoVal(f, "scheme") != "https" && pseudoVal(f, "scheme") != "http")) ==> err.(StreamError)
+//@   loop 1 invariant -1 <= rangeindex && rangeindex < len(regFields(f)) || (rangeindex == -1 && len(regFields(f)) == 0)
+//@   loop 1 invariant rp.header != nil && (sc.canonHeader != nil ==> cacheOK(sc) && sc.canonHeader != commonCanonHeader && sc.canonHeader != commonLowerHeader) && (forall k string :: mapHas(rp.header, k) ==> canon(k) == k && len(mapGet(rp.header, k)) > 0) && rp.authority == pseudoVal(f, "authority") && rp.protocol == pseudoVal(f, "protocol")
 //@ func checkValidHTTP2RequestHeaders :: h -> err
 //@   trusted
 //@   pure
